@@ -23,6 +23,8 @@ from ..engine import Outcome, Prop
 ENCODINGS = ["utf-8", "utf-8", "utf-8-sig", "utf-16", "latin-1", "cp1252", "utf-32", "utf-16-be", "utf-32-le"]
 EXTS = ["sql", "ddl", "hql", "bql"]
 DECOY_EXTS = ["txt", "json", "md", "sqlx", "bak"]
+DDL_EXTS = EXTS
+SRC_DIRS = ["src.d", "src.d", "src.d", "release[2.1]", "ddl [final]", "a*b", "what?", "my dir", "{x,y}", "[a-z]", "~tmp", "v1.2", "-dash"]
 # the last four carry characters that str.splitlines() treats as line boundaries but file reading does not
 SNIPPETS = ["-- résumé of the table ü\n", "-- plain ascii comment\n", "", "", "-- naïve £ sign\n", "-- page break \x0c after it\n",
             "-- unicode line separator \u2028 inside\n", "-- next-line \x85 character\n", "-- vt \x0b and fs \x1c here\n",
@@ -80,6 +82,9 @@ def cli_case(draw):
             fn = "z" + fn
         used.add(fn.split(".")[0])
         files.append({"name": fn, "blocks": draw(universe.script(1, 2, unsupported_p=3))})
+    if dir_mode and draw(st.integers(0, 5)) == 0:
+        # a DDL file whose name starts with a dot is a DDL file like any other
+        files.append({"name": ".hidden." + draw(st.sampled_from(DDL_EXTS)), "blocks": draw(universe.script(1, 2))})
     decoys = []
     if dir_mode:
         for i in range(draw(st.integers(0, 2))):
@@ -91,6 +96,8 @@ def cli_case(draw):
     return {"kind": "cli", "dir_mode": dir_mode, "files": files, "decoys": decoys, "target": draw(st.sampled_from(["default", "missing", "nested", "existing", "stale"])),
             "mode": draw(st.one_of(st.none(), st.sampled_from(universe.MODES))), "verbose": draw(st.booleans()), "no_dump": draw(st.integers(0, 2)) == 0,
             "long_opts": draw(st.booleans()), "subprocess": False,
+            # the input directory / the directory of the input file is a name like any other (blanks, dots, brackets, wildcard characters)
+            "srcdir": draw(st.sampled_from(SRC_DIRS)),
             # single-file mode through a symbolic link whose name differs from its target's: the input base name is the link's
             "symlink": (not dir_mode) and draw(st.integers(0, 4)) == 0}
 
@@ -277,8 +284,9 @@ class C19(Prop):
         root = tempfile.mkdtemp(prefix="c19_", dir=loader.scratch_dir())
         cwd = os.getcwd()
         try:
-            src = os.path.join(root, "src.d")
+            src = os.path.join(root, case.get("srcdir") or "src.d")
             os.makedirs(src)
+            out.label("srcdir:" + ("plain" if src.endswith("src.d") else "special"))
             refs = {}
             for f in case["files"]:
                 text = universe.render_blocks(f["blocks"], None)
